@@ -319,6 +319,16 @@ def scan_shared(infos, raw):
                 text = raw[fi.rel][ls:le if le >= 0 else None]
                 # `static X: T = ..` : classify immutable statics of plain data separately
                 k = kind
+                if kind == 'raw_ptr':
+                    # an address that is only ever a KEY of a hash set: `set.insert(Arc::as_ptr(x))` / `set.contains(&Arc::as_ptr(x))`
+                    # and the element type in `HashSet<*const T>`.  Membership in a set is equality of addresses (like
+                    # Arc::ptr_eq); the value of the address decides a bucket only, and hash containers are confined to the
+                    # lookup-only fragment (c06_hash_sites: no iteration, no order).  Anything else stays raw_ptr.
+                    line = fi.code[ls:le if le >= 0 else None]
+                    off = m.start() - ls
+                    for km in re.finditer(r"\b\w+\s*\.\s*(?:insert|contains)\s*\(\s*&?\s*Arc::as_ptr\(\s*\w+\s*\)\s*\)|\bHashSet<\s*\*const\s+[\w:]+\s*>", line):
+                        if km.start() <= off < km.end():
+                            k = 'ptr_key'
                 if kind == 'static':
                     decl = fi.code[m.start():fi.code.find('=', m.start())]
                     if re.search(r"Cell|Mutex|RwLock|Atomic|Lazy|Once|\bmut\b", decl):
